@@ -3,7 +3,7 @@ SPEC = dict(
     props_file="Props/C12.v",
     level="proof",
     observers=[dict(cmd="obs_resp", imports=["Model.Resp"], case_type="Resp.case", check="Resp.check_case",
-                    n={"quick": 1200, "thorough": 40000}, shard=80)],
+                    n={"quick": 1200, "thorough": 40000}, shard=40)],
     rule="generated value trees of every RESP2/RESP3 type (depth <= 6 quick / 10 thorough; payloads with CR/LF/NUL/0xFF, sizes at "
          "0/1/B-1/B/B+1/2B and around the decoder's pre-allocation steps; RESP2 nulls, streamed strings with any chunk split, streamed "
          "aggregates, attributes, pushes) encoded by the harness' own encoder and decoded by the real readNextMessage through bufio sizes "
